@@ -1,5 +1,6 @@
 """C10: calendars, address books and their objects reach the client unchanged."""
 import random
+import checks_store
 
 
 def _mut(e, rnd):
@@ -22,4 +23,6 @@ def run(ctx, replay, generic):
                    "misleading prefixes, whitespace, CDATA) fed to the real clients; tokens concretised to hostile strings (XML metacharacters, quotes, non-ASCII, blanks, "
                    "escaped / folded / multi-valued iCalendar and vCard payloads, sub-second non-UTC times); judged by got = want",
                    _mut, ["hostile"] if ctx.quick() else ["hostile", "plain"],
-                   ["go-ical / go-vcard encode and compare the payloads (their own fidelity is outside go-webdav)", "backend doubles and in-process transport", "TLC and the CommunityModules Json reader"])
+                   ["go-ical / go-vcard encode and compare the payloads (their own fidelity is outside go-webdav)", "backend doubles and in-process transport", "TLC and the CommunityModules Json reader",
+                    "store histories: the backend double (an in-memory map; queries answered by the library's own Filter) is the store the model describes"],
+                   more=checks_store)
